@@ -140,3 +140,18 @@ M('output-points-filtered', ['C36'], (RT, "for j in range(t)]\n            point
 B('rename-len-packet', (AC, "            len_packet = payload_size + 12\n            if len(data) < len_packet:\n                break\n            payload = struct.unpack_from(f'{payload_size}s', data, 12)[0]\n            del data[:len_packet]",
                             "            frame_len = payload_size + 12\n            if len(data) < frame_len:\n                break\n            payload = struct.unpack_from(f'{payload_size}s', data, 12)[0]\n            del data[:frame_len]"))
 B('guard-reordered', (AC, "                if len(data) < len_packet + 2:", "                if len(data) < 2 + len_packet:"))
+
+# ---------------------------------------------------------------- LV
+M('level-not-released-stopiter', ['C35'], (AC, "            except StopIteration as exc:\n                runtime._pc_level -= 1\n                return exc.value\n\n            except Exception:\n                runtime._pc_level -= 1\n                raise\n\n        if runtime.options.no_async:",
+                                       "            except StopIteration as exc:\n                return exc.value\n\n            except Exception:\n                runtime._pc_level -= 1\n                raise\n\n        if runtime.options.no_async:"))
+M('reconcile-late-release', ['C35'], (AC, "    runtime._pc_level -= 1\n    if decl is None:\n        return\n", "    if decl is None:\n        return\n\n    runtime._pc_level -= 1\n"))
+M('no-done-callback-level', ['C35'], (AC, "        task.add_done_callback(lambda t: _reconcile(decl, t))\n", "        task.add_done_callback(lambda t: __reconcile(decl, t.result()))\n"))
+M('shutdown-wait-via-barrier', ['C35', 'C09'], (RT, "        # Wait for all parties behind a barrier.\n        while self._pc_level > self._program_counter[1]:\n            await asyncio.sleep(0)\n",
+                                               "        # Wait for all parties behind a barrier.\n        await self.barrier(name='shutdown')\n"))
+M('shutdown-no-wait', ['C35', 'C09'], (RT, "        # Wait for all parties behind a barrier.\n        while self._pc_level > self._program_counter[1]:\n            await asyncio.sleep(0)\n", ""))
+M('shutdown-no-sync', ['C35'], (RT, "        await self.transfer(self.pid)\n\n        # Close connections", "        # Close connections"))
+M('shutdown-close-all', ['C35'], (RT, "        for peer in self.parties[self.pid + 1:]:\n            peer.protocol.close_connection()", "        for peer in self.parties[self.pid + 2:]:\n            peer.protocol.close_connection()"))
+M('barrier-ge', ['C35'], (RT, "            while self._pc_level > self._program_counter[1]:\n                await asyncio.sleep(0)", "            while self._pc_level >= self._program_counter[1] + 1 and False:\n                await asyncio.sleep(0)"))
+M('barrier-hop-component', ['C35'], (RT, "            while self._pc_level > self._program_counter[1]:\n                await asyncio.sleep(0)", "            while self._pc_level > self._program_counter[0]:\n                await asyncio.sleep(0)"))
+M('barrier-inverted-option', ['C35'], (RT, "        if not self.options.no_async:\n            while self._pc_level", "        if self.options.no_async:\n            while self._pc_level"))
+M('lost-no-unset', ['C35'], (AC, "        self.runtime.unset_protocol(self.peer_pid)\n\n    def close_connection", "        pass\n\n    def close_connection"))
